@@ -10,7 +10,7 @@ from fractions import Fraction
 from ..gen.ledger import Opts, gen_ledger
 from ..model import fmt
 from ..probe import probe
-from ..util import rng_for, sha, fr, dstr, iso, d as pdate, round_half_away, ZERO
+from ..util import cap_viols, rng_for, sha, fr, dstr, iso, d as pdate, round_half_away, ZERO
 from . import ledger_core as lc
 
 PROP = "C17"
@@ -602,7 +602,7 @@ def run_mcp(desc):
                 x["case"] = {"op": "calc", "txs": txs}
                 viols.append(x)
     return {"evaluations": sum(len(r) for _, _, r in items), "nontrivial_hashes": hashes, "counters": cnt,
-            "violations": viols[:30], "samples": []}
+            "violations": cap_viols(viols), "samples": []}
 
 
 def run_shard(desc):
@@ -635,7 +635,7 @@ def run_shard(desc):
         if not vs and len(samples) < 1 and len(txs) <= 5:
             samples.append({"ledger": lc.brief(txs), "plain_excerpt": o["ok"]["plain"].split("\n")[4:6],
                             "pdf_runs_excerpt": o["ok"]["pdf_runs"][18:26]})
-    return {"evaluations": len(cases) * 3, "nontrivial_hashes": hashes, "counters": cnt, "violations": viols[:40], "samples": samples}
+    return {"evaluations": len(cases) * 3, "nontrivial_hashes": hashes, "counters": cnt, "violations": cap_viols(viols), "samples": samples}
 
 
 def replay(case):
